@@ -12,7 +12,7 @@ LEVEL = "exploration"
 LEVEL_TEXT = ("Complete enumeration of tables = every subset of size 1-4 of the entry texts {a,b,ab,ba,aa,abc} x every assignment of 4 "
               "code styles (1-byte, 2-byte, 2-byte sharing its first byte with a 1-byte code, duplicate code) x every string of length "
               "<=4 (thorough <=5) over {a,b,c,z,[0x41],[0x7F]}, each pair through the real Table.to_bytes/to_text and compared with an "
-              "independent longest-match tokenizer; a covering subset again through `.table` + `.text` programs in 5 scoping contexts "
+              "independent longest-match tokenizer; a covering subset again through `.table` + `.text` programs in 7 scoping contexts "
               "with a label after the text. Five unit tests use one table and four strings.")
 LEVEL_NOTE = ("Trusted: mc/ref/tbl.py. Round trip is claimed only for unique, prefix-free code sets and escape-free strings (the statement "
               "does not define decoding of raw bytes). The `:ignore` table syntax is outside the property.")
@@ -66,10 +66,10 @@ def strings(maxlen):
 
 def bound(tier):
     return (f"{len(tables())} tables x all strings of length <={5 if tier == 'thorough' else 4} over 6 symbols; "
-            "every 61st table x strings <=3 x 5 scoping contexts as programs")
+            "every 61st table x strings <=3 x 7 scoping contexts as programs")
 
 
-CONTEXTS = ["top", "inherit", "own", "macro", "scope"]
+CONTEXTS = ["top", "inherit", "own", "macro", "scope", "reload", "late-own"]
 
 
 def cases(tier, seed):
@@ -149,6 +149,11 @@ def program(ctx, s):
     if ctx == "macro":
         return (f"*=0x{ORG:06x}\n.macro mt() {{\n{txt}}}\n.table 't.tbl'\nmt()\n{{\n.table 'u.tbl'\nmt()\n}}\nmt()\nafter:\n.dw 0xEEDD\n",
                 ["t", "u", "t"])
+    if ctx == "reload":
+        # a table loaded later in the same scope must not change text that precedes it
+        return f"*=0x{ORG:06x}\n.table 't.tbl'\n{txt}.table 'u.tbl'\n{txt}after:\n.dw 0xEEDD\n", ["t", "u"]
+    if ctx == "late-own":
+        return f"*=0x{ORG:06x}\n.table 'u.tbl'\n{{\n{txt}.table 't.tbl'\n{txt}}}\n{txt}after:\n.dw 0xEEDD\n", ["u", "t", "u"]
     return f"*=0x{ORG:06x}\n.table 'u.tbl'\n.scope ns {{\n.table 't.tbl'\n{txt}inner:\n}}\n{txt}after:\n.dw 0xEEDD\n", ["t", "u"]
 
 
